@@ -63,6 +63,7 @@ type groupState struct {
 	commits     map[string][]*commitCall // client -> calls
 	wireCmt     []wireCommit
 	topics      []string
+	partsOf     map[string]int32
 	nparts      int32
 	mode        int64
 	block       bool
@@ -153,6 +154,9 @@ func (gs *groupState) newMember(slot, inc int) *gmember {
 			kgo.OnPartitionsRevoked(func(c context.Context, cl *kgo.Client, mp map[string][]int32) {
 				entry := copyTP(mp)
 				gs.ev(name, "revoke-enter", entry)
+				if d := p.Knob("revoke_sleep_ms", 0); d > 0 && len(entry) > 0 {
+					time.Sleep(time.Duration(d) * time.Millisecond) // a slow application callback
+				}
 				if p.Knob("disable_autocommit", 0) == 0 && p.Knob("commit_in_revoke", 1) != 0 {
 					cctx, cancel := context.WithTimeout(c, 20*time.Second)
 					cl.CommitUncommittedOffsets(cctx)
@@ -215,6 +219,11 @@ func (gs *groupState) pollLoop(m *gmember, script []plan.Op, pattern []plan.Op) 
 		pr.ret = s.Seq()
 		gs.mu.Unlock()
 		if fs.IsClientClosed() {
+			if gs.block {
+				// contract: every poll that returned a non-empty Fetches
+				// (an error fetch counts) is followed by AllowRebalance
+				cl.AllowRebalance()
+			}
 			return false
 		}
 		lastRecs = lastRecs[:0]
@@ -267,8 +276,24 @@ func (gs *groupState) pollLoop(m *gmember, script []plan.Op, pattern []plan.Op) 
 			cc.doneSeq = s.Seq()
 			gs.mu.Unlock()
 		}
-		ctx, cancel := context.WithTimeout(context.Background(), 30*time.Second)
-		defer cancel()
+		// the context of an asynchronous commit must outlive the call: it is
+		// released in the completion callback (or by its own, planned
+		// time-out when the plan asks for a commit that gives up early)
+		tmo := 60 * time.Second
+		if op.D > 0 {
+			tmo = time.Duration(op.D) * time.Millisecond
+			s.Probe("commit_with_short_context")
+		}
+		ctx, cancel := context.WithTimeout(context.Background(), tmo)
+		if op.Kind == "commit_async" {
+			inner := onDone
+			onDone = func(c *kgo.Client, rq *kmsg.OffsetCommitRequest, rs *kmsg.OffsetCommitResponse, err error) {
+				inner(c, rq, rs, err)
+				cancel()
+			}
+		} else {
+			defer cancel()
+		}
 		switch op.Kind {
 		case "commit_async", "commit_sync":
 			unc := map[string]map[int32]kgo.EpochOffset{}
@@ -406,11 +431,19 @@ func scenGroup(s *Sim) {
 	nparts := int32(p.Knob("nparts", 4))
 	ntopics := int(p.Knob("ntopics", 1))
 	var topics []string
+	var kopts []kfake.Opt
+	partsOf := map[string]int32{}
 	for i := 0; i < ntopics; i++ {
-		topics = append(topics, topicName(int64(i)))
+		t := topicName(int64(i))
+		topics = append(topics, t)
+		partsOf[t] = int32(p.Knob(fmt.Sprintf("nparts_t%d", i), int64(nparts)))
+		kopts = append(kopts, kfake.SeedTopics(partsOf[t], t))
 	}
-	s.StartCluster(nb, kfake.SeedTopics(nparts, topics...))
-	gs := &groupState{s: s, members: map[string]*gmember{}, commits: map[string][]*commitCall{}, topics: topics, nparts: nparts,
+	if v := p.Knob("min_session_ms", 0); v > 0 {
+		kopts = append(kopts, kfake.GroupMinSessionTimeout(time.Duration(v)*time.Millisecond))
+	}
+	s.StartCluster(nb, kopts...)
+	gs := &groupState{s: s, members: map[string]*gmember{}, commits: map[string][]*commitCall{}, topics: topics, nparts: nparts, partsOf: partsOf,
 		mode: p.Knob("mode", 1), block: p.Knob("block_rebalance", 0) != 0, defaults: p.Knob("default_callbacks", 0) != 0, syncGens: map[int32]bool{}, joinInfo: map[string]*joinSnapshot{}}
 	s.OnReq = append(s.OnReq, gs.onReq)
 	s.OnResp = append(s.OnResp, gs.onResp)
@@ -538,7 +571,7 @@ func scenGroup(s *Sim) {
 	defer admin.Close()
 	logs := map[tpKey]*RefLog{}
 	for _, t := range topics {
-		for q := int32(0); q < nparts; q++ {
+		for q := int32(0); q < partsOf[t]; q++ {
 			l, err := admin.ReadLog(t, q)
 			if err != nil {
 				s.OutOfScope("could not read the final logs")
@@ -562,7 +595,15 @@ func scenGroup(s *Sim) {
 			s.Violf("C07/convergence/unowned", "membership stable for %v on a healthy cluster, yet: %s", bound, gs.unowned(liveNames))
 		}
 	}
-	consumedAll := s.WaitFor(bound, 500*time.Millisecond, func() bool { return gs.unconsumed(logs) == "" })
+	cbound := bound
+	if p.Knob("process_ms", 0) >= 500 {
+		cbound = 20 * time.Second
+	}
+	consumedAll := s.WaitFor(cbound, 500*time.Millisecond, func() bool { return gs.unconsumed(logs) == "" })
+	if p.Knob("process_ms", 0) >= 500 {
+		// a deliberately slow application: consumption speed says nothing
+		consumedAll = true
+	}
 	if !consumedAll && gs.fencedAt == "" {
 		s.Violf(p.Prop+"/liveness/group-not-consumed", "group with stable membership did not consume everything within %v: %s", bound, gs.unconsumed(logs))
 	}
@@ -591,7 +632,7 @@ func (gs *groupState) unowned(live []string) string {
 		isLive[n] = true
 	}
 	for _, t := range gs.topics {
-		for q := int32(0); q < gs.nparts; q++ {
+		for q := int32(0); q < gs.partsOf[t]; q++ {
 			o := owner[tpKey{t, q}]
 			if o == "" {
 				return fmt.Sprintf("%s/%d is owned by nobody (live members %v)", t, q, live)
@@ -758,6 +799,7 @@ func (gs *groupState) checkSync(r *WireReq, req *kmsg.SyncGroupRequest) {
 		gen    int32
 	}
 	claims := map[tpKey]claim{}
+	tied := map[tpKey]bool{}
 	for id, md := range js.members {
 		gen := md.Generation
 		for _, o := range md.OwnedPartitions {
@@ -765,6 +807,8 @@ func (gs *groupState) checkSync(r *WireReq, req *kmsg.SyncGroupRequest) {
 				k := tpKey{o.Topic, p}
 				if c, ok := claims[k]; !ok || gen > c.gen {
 					claims[k] = claim{id, gen}
+				} else if gen == c.gen && c.member != id {
+					tied[k] = true // two claims of the same generation: no current owner can be named
 				}
 			}
 		}
@@ -777,7 +821,8 @@ func (gs *groupState) checkSync(r *WireReq, req *kmsg.SyncGroupRequest) {
 		for _, t := range as.Topics {
 			for _, p := range t.Partitions {
 				k := tpKey{t.Topic, p}
-				if c, ok := claims[k]; ok && c.member != ga.MemberID {
+				if c, ok := claims[k]; ok && c.member != ga.MemberID && !tied[k] {
+					gs.s.Probe("sync_plan_moves_claimed_partition")
 					gs.s.Violf("C27/handoff/assigned-while-owned", "generation %d: the leader's plan gives %s/%d to %s while %s claims to own it (claim generation %d)", req.Generation, k.t, k.p, ga.MemberID, c.member, c.gen)
 				}
 			}
@@ -845,16 +890,30 @@ func (gs *groupState) checkCommits(admin *RawCli, live map[int]*gmember) {
 				s.Violf("C09/order/commit-arrived-late", "%s: a commit request equal to call #%d reached the coordinator after a request of call #%d", client, -2-best, lastIdx)
 			}
 		}
-		// final value: the last successful call that included the partition
+		// final value: the last successful call that included the partition.
+		// A later call that reported an error may still have been applied by
+		// the coordinator (its context ended after the request was sent):
+		// such unconfirmed values are acceptable too, nothing else is.
 		want := map[tpKey]int64{}
+		allowed := map[tpKey]map[int64]bool{}
 		for _, c := range calls {
 			if c.done && c.err == nil {
 				for k, o := range c.offsets {
 					want[k] = o
+					allowed[k] = map[int64]bool{o: true}
+				}
+			} else {
+				for k, o := range c.offsets {
+					if allowed[k] != nil {
+						allowed[k][o] = true
+					}
 				}
 			}
 		}
-		if len(want) == 0 || s.P.Knob("disable_autocommit", 0) == 0 {
+		// with a second member partitions move and the library filters
+		// what each call may commit; the value clause is judged on
+		// single-member groups only (the order clause always)
+		if len(want) == 0 || s.P.Knob("disable_autocommit", 0) == 0 || len(gs.members) != 1 {
 			continue
 		}
 		got := brokerView
@@ -862,14 +921,15 @@ func (gs *groupState) checkCommits(admin *RawCli, live map[int]*gmember) {
 			continue
 		}
 		for k, o := range want {
-			if g, ok := got[k]; !ok || g != o {
-				s.Violf("C09/final/broker-value", "%s: last successful commit of %s/%d was offset %d, the coordinator holds %d (present=%v)", client, k.t, k.p, o, g, ok)
+			g, ok := got[k]
+			if !ok || !allowed[k][g] {
+				s.Violf("C09/final/broker-value", "%s: last successful commit of %s/%d was offset %d, the coordinator holds %d (present=%v) which no later unconfirmed commit carried", client, k.t, k.p, o, g, ok)
 			}
 		}
 		if view, ok := views[client]; ok && len(gs.members) == 1 {
 			for k, o := range want {
-				if eo, ok := view[k.t][k.p]; ok && eo.Offset != o {
-					s.Violf("C09/final/client-view", "%s: CommittedOffsets reports %d for %s/%d, the last successful commit was %d", client, eo.Offset, k.t, k.p, o)
+				if eo, ok := view[k.t][k.p]; ok && eo.Offset != o && got[k] == o {
+					s.Violf("C09/final/client-view", "%s: CommittedOffsets reports %d for %s/%d, the last successful commit (and the coordinator's value) is %d", client, eo.Offset, k.t, k.p, o)
 				}
 			}
 		}
@@ -914,8 +974,15 @@ func (gs *groupState) fetchCommitted(admin *RawCli) map[tpKey]int64 {
 
 func (gs *groupState) judge(admin *RawCli, logs map[tpKey]*RefLog) {
 	s := gs.s
-	if gs.fencedAt != "" {
+	if gs.fencedAt != "" && s.P.Prop != "C27" {
 		s.OutOfScope("a member was fenced (" + strings.SplitN(gs.fencedAt, " ", 2)[1] + ")")
+		return
+	}
+	if gs.fencedAt != "" {
+		// C27's hand-off clause was checked on the wire while the run went
+		// on (stale claims are exactly what it is about); the other
+		// clauses assume graceful members.
+		s.Probe("member_fenced_in_c27_run")
 		return
 	}
 	if !gs.defaults {
@@ -1010,7 +1077,7 @@ func (gs *groupState) judge(admin *RawCli, logs map[tpKey]*RefLog) {
 		}
 	}
 	// C27 convergence: generations after membership became stable
-	if gs.mode == 1 && gs.maxGen-gs.genAtStable > 3 {
+	if gs.mode == 1 && gs.maxGen-gs.genAtStable > 3 && s.P.Knob("stale_family", 0) == 0 {
 		s.Violf("C27/convergence/too-many-rebalances", "%d generations completed after membership stopped changing (generation %d -> %d)", gs.maxGen-gs.genAtStable, gs.genAtStable, gs.maxGen)
 	}
 	s.Max("generations_max", int64(gs.maxGen))
